@@ -212,8 +212,11 @@ def stream_case(ctx, dec, msgs, damage, spec_base):
                 damaged={str(i): list(damage[i][:2]) + [damage[i][3]] for i in damage})
     ksig = '+'.join(kinds) or 'none'
     sample = dict(n_messages=len(msgs), damaged={str(i): '%s %s (%s)' % (damage[i][0], damage[i][1], damage[i][3]) for i in damage})
+    first0 = min([i for i in damage if damage[i][3] in ('invalid', 'unknown-descriptor')] or [None], default=None) if damage else None
+    strict_ok = first0 is not None and not any(damage[i][3] not in ('invalid', 'unknown-descriptor') for i in damage if i < first0)
+    strict_want = [m.bytes for i, m in enumerate(msgs) if first0 is not None and i < first0] if strict_ok else None
     recent = ctx.__dict__.setdefault('_c12_recent', [])
-    recent.append((stream, good, unjudged, spec, ksig))
+    recent.append((stream, good, unjudged, spec, ksig, strict_want))
     del recent[:-3]
     # ---- continue-on-error, full mode
     ctx.count('damaged_streams_full')
@@ -308,9 +311,13 @@ def interleaved_fault_scans(ctx, decs):
         return
     rng = ctx.rng
     gens = []
-    for i, (stream, good, unjudged, spec, ksig) in enumerate(recent):
-        gens.append(dict(gen=generate_bufr_message(decs[i % len(decs)], stream, continue_on_error=True), got=[], good=good, unjudged=unjudged,
-                         spec=spec, ksig=ksig, done=False, leave=(rng.randrange(len(good) + 1) if rng.random() < 0.25 else None)))
+    for i, (stream, good, unjudged, spec, ksig, strict_want) in enumerate(recent):
+        # every scan has its own error policy: some of the scans stop at the first damaged message (no continue-on-error) and must
+        # raise the library's error there, after delivering what precedes it - while the others carry on past theirs
+        strict = strict_want is not None and rng.random() < 0.4
+        gens.append(dict(gen=generate_bufr_message(decs[i % len(decs)], stream, continue_on_error=not strict), got=[], good=good, unjudged=unjudged,
+                         spec=spec, ksig=ksig, done=False, strict=strict, strict_want=strict_want, raised=None,
+                         leave=(rng.randrange(len(good) + 1) if rng.random() < 0.25 and not strict else None)))
     live = list(gens)
     schedule = []
     saved = sys.stderr
@@ -332,6 +339,13 @@ def interleaved_fault_scans(ctx, decs):
                     g['done'] = True
                     live.remove(g)
                     continue
+                except Exception as e:
+                    if not g['strict']:
+                        raise
+                    g['raised'] = e
+                    g['done'] = True
+                    live.remove(g)
+                    continue
                 g['got'].append(m.serialized_bytes)
     except CaseTimeout:
         ctx.count('case_timeouts')
@@ -347,7 +361,22 @@ def interleaved_fault_scans(ctx, decs):
         ctx.violate('interleaved/continue-on-error/escapes:%s' % type(failed).__name__, 'with continue-on-error %s escaped from one of %d scans advanced alternately'
                     % (type(failed).__name__, len(gens)), dict(gens[0]['spec'], schedule=schedule[:60]), exc=failed)
         return
+    from pybufrkit.errors import PyBufrKitError
     for g in gens:
+        if g['strict']:
+            ctx.count('interleaved_strict_scans')
+            ctx.evaluated((g['spec'].get('stream_hex'), 'interleaved-strict', tuple(schedule)), True)
+            sp = dict(g['spec'], schedule=schedule[:60], decoders=len(decs), strict=True)
+            if g['raised'] is None:
+                ctx.violate('interleaved/no-continue/no-error/%s' % g['ksig'], 'a scan WITHOUT continue-on-error, advanced alternately with %d continue-on-error scans, '
+                            'ended without an error although its stream holds a damaged message (delivered %d messages)' % (len(gens) - 1, len(g['got'])), sp)
+            elif not isinstance(g['raised'], PyBufrKitError):
+                ctx.violate('interleaved/no-continue/wrong-exception:%s' % type(g['raised']).__name__, 'damage surfaced as %s, not as PyBufrKitError'
+                            % type(g['raised']).__name__, sp, exc=g['raised'])
+            elif g['got'] != g['strict_want']:
+                ctx.violate('interleaved/no-continue/preceding-not-delivered/%s' % g['ksig'], 'delivered %d messages before the failure, expected %d'
+                            % (len(g['got']), len(g['strict_want'])), sp)
+            continue
         judged = [x for x in g['got'] if x not in g['unjudged']]
         want = g['good'] if g['done'] else g['good'][:len(judged)]
         ctx.evaluated((g['spec'].get('stream_hex'), 'interleaved', tuple(schedule)), True)
